@@ -191,3 +191,9 @@ def contracts(tier):
     yield ("LinkCommandGenerator", "", generator)
     yield ("LinkCommandDetector", "", detector)
     yield ("LinkCommandGenerator->LinkCommandDetector", "", roundtrip)
+
+
+LEVEL = "proof"
+EXPLANATION = ("Unbounded inductive proofs for the real LinkCommandGenerator, LinkCommandDetector and their product (round trip), for "
+               "all 4-bit commands/subtypes, all 32+4-bit received words and all ready patterns; the link CRC5 is the bit-serial "
+               "definition of contracts/spec.py (11-bit domain, decided by z3 directly).")
